@@ -10,7 +10,7 @@ SPEC = {
              'policies; a census of every generated leaf part is taken after EVERY executed event; a case is '
              'one model+script+tie policy; non-trivial = at least one part was received by a sink and at least '
              'one of {part lost by a failure, batch traffic, group traversal, resource refusal} occurred; '
-             'distinct = by hash of the specification'),
+             'distinct = by hash of the specification; also: operations before the first simulate(), non-integral budgets, budgets withdrawn and given back, rework loops, deciders failing in the middle of a multi-part release, long-history models'),
     'floors': {'quick': {'census_checks': 20000, 'parts_received': 1000, 'parts_lost': 20},
                'thorough': {'census_checks': 400000, 'parts_received': 20000, 'parts_lost': 400}},
     'assumptions': ['models are well-posed (DESIGN 2.8)', 'parts are created by PartGenerators only'],
